@@ -157,7 +157,8 @@ def build(case):
     if "json" in c:
         kw["json" if c.get("json_alias") else "json_body"] = c["json"]
     if "status" in c:
-        kw["status"] = py_status(c["status"])
+        # status_alias: the same status given through the keyword status_int= / status_code=
+        kw[c.get("status_alias") or "status"] = py_status(c["status"])
     if "headerlist" in c:
         kw["headerlist"] = [tuple(h) for h in c["headerlist"]]
     if "app_iter" in c:
@@ -630,6 +631,15 @@ def run_prefix(case, n, lenient_ctor=False):
     c = case["ctor"]
     if isinstance(r, Err):
         return ("skip",)
+    if c.get("status_alias") and nobody_status(r.status):
+        own = [tuple(h) for h in c.get("headerlist", [])]
+        if c.get("content_length") is not None:
+            own = [h for h in own if h[0].lower() != "content-length"] + [("Content-Length", str(c["content_length"]))]
+        if [tuple(h) for h in r.headerlist] != own or ("app_iter" not in c and b"".join(r.app_iter) != b""):
+            return ("fail", "nobody-status:status_int-keyword",
+                    "Response(%s=%r, ...) is created as %r with headers %r and body %r; status=%r gives no header and no body"
+                    % (c["status_alias"], c["status"], r.status, r.headerlist,
+                       b"".join(r.app_iter) if isinstance(r.app_iter, list) else "<app_iter>", c["status"]))
     if "app_iter" in c:
         ref = Ref([("raw", b"".join(bytes.fromhex(x) for x in c["app_iter"][1]))], c["app_iter"][0])
     else:
@@ -788,6 +798,10 @@ def oracle_ctor(case):
         return ("ctor:raises", "constructor raised %s" % r.name, case)
     if "body" in c and "app_iter" in c:
         return ("ctor:body-and-app_iter", "both body and app_iter were accepted", case)
+    if c.get("status_alias"):
+        out = run_prefix(dict(case, ops=[]), 0)
+        if out[0] == "fail":
+            return (out[1], out[2], case)
     st = r.status
     nobody = nobody_status(st)
     if nobody:
@@ -1156,6 +1170,8 @@ def rand_ctor(rng, model_only=False):
         c["body"], c["app_iter"] = rand_bytes(rng), ["list", []]     # both: refused with TypeError
     if rng.random() < 0.35:
         c["status"] = rng.choice(STATUSES + ([] if model_only else STATUSES_X))
+        if isinstance(c["status"], int) and rng.random() < 0.4:
+            c["status_alias"] = rng.choice(["status_int", "status_code"])
     if rng.random() < 0.25:
         hl = []
         for _ in range(rng.randrange(0, 3)):
@@ -1230,13 +1246,16 @@ def small_universe():
 
 
 def ctor_sweep(class_names):
+    ALIASED = [(s_, a_) for s_ in (204, 304, 100, 205, 404, 200) for a_ in ("status_int", "status_code")]
     for cls in class_names:
-        for status in [None] + STATUSES + STATUSES_X:
+        for status in [None] + STATUSES + STATUSES_X + ALIASED:
             for body in (None, ("body", "616263"), ("text", "\xe9"), ("json", {"k": [1]}), ("app_iter", ["gen", ["61", "62"]])):
                 for ct in (None, "text/plain", "image/png", "application/xml"):
                     for chs in ("marker", None, "latin-1"):
                         c = {}
-                        if status is not None:
+                        if isinstance(status, tuple):
+                            c["status"], c["status_alias"] = status
+                        elif status is not None:
                             c["status"] = status
                         if body is not None:
                             c[body[0]] = body[1]
